@@ -76,6 +76,7 @@ class Check(PropertyCheck):
             if self.rng.chance(1, 8):
                 t += "\n" + "".join(self.rng.choice(gen.CJK + "ab |-") for _ in range(self.rng.range(1, 12)))
             out.append(t)
+        out += [gen.zoo(self.rng, legend=False) for _ in range(n // 4)]   # the oracle measures the rows of the whole text
         return out
 
     def correspondence(self):
